@@ -771,9 +771,11 @@ func (s *Server) Close() (err error) {
 closing:
 	// Closing the socket unblocks both the Serve read loop and any in-flight
 	// writes before we wait for workers or acquire per-session locks.
+	verifYield("Server.Close.elected")
 	s.closeErr = s.udpConn.Close()
 	close(s.stopCookieRotate)
 	s.wg.Wait()
+	verifYield("Server.Close.workersDone")
 
 	s.m.Lock()
 	close(s.pendingConnections)
@@ -791,6 +793,7 @@ closing:
 		}
 	}
 
+	verifYield("Server.Close.sessionsClosed")
 	s.state.Store(uint32(serverStateClosed))
 	close(s.closeDone)
 	return s.closeErr
